@@ -346,6 +346,38 @@ def handle (toks : List String) : String :=
       -- object-level session: `seq pi <problem> npts [x(3)]* nsteps [step]*`, steps: 0 read (+ np.log(eta) of the current
       -- points) | 1 i x | 2 t | 3 d | 4 j h | 5 all | 6 b | 7 m | 8 n | 9 f (C *= f) | 10 T
       | "seq" => handleSeq xs
+      -- the whole of VolterraDislocation.solve (option handling, refusals in source order, transform, C, b):
+      -- `base tol tolAx rtol cart mStr nStr m(3) n(3) ξ hkl hasT T(9) hasA A(9) norms(3) norms2(3) nAxis(3) ξAxis(3) vects(9) Cij(36) b(3)`
+      | "base" => done do
+          let (tol, r) ← take1 xs
+          let (tolAx, r) ← take1 r
+          let (rtol, r) ← take1 r
+          let (cart, r) ← takeBool r
+          let (mStr, r) ← takeBool r
+          let (nStr, r) ← takeBool r
+          let (m, r) ← takeVec r
+          let (n, r) ← takeVec r
+          let (hξ, r) ← takeBool r
+          let (hhkl, r) ← takeBool r
+          let (hasT, r) ← takeBool r
+          let (T, r) ← takeMat r
+          let (hasA, r) ← takeBool r
+          let (A, r) ← takeMat r
+          let (norms, r) ← takeVec r
+          let (norms2, r) ← takeVec r
+          let (nAxis, r) ← takeVec r
+          let (ξAxis, r) ← takeVec r
+          let (vects, r) ← takeMat r
+          let (c, r) ← takeMat6 r
+          let (b, _) ← takeVec r
+          let a : BaseIn Q := ⟨tol, tolAx, rtol, cart, mStr, nStr, m, n, hξ, hhkl, if hasT then some T else none,
+            if hasA then some A else none, norms, norms2, nAxis, ξAxis, vects, c, b⟩
+          match baseSolve a with
+          | .error e => pure (err e)
+          | .ok out =>
+            let tarr := tabMat out.T
+            let T' := arrMat tarr
+            pure (showRats (matToList T' ++ (fin6.flatMap fun i => fin6.map fun j => out.c i j) ++ vecToList out.b))
       | _ => err "op"
 
 end C12Drv
